@@ -7,7 +7,6 @@ Pyccolo brings metaprogramming to everybody via general event-emitting AST trans
 import ast
 import functools
 import inspect
-import textwrap
 import types
 from contextlib import contextmanager
 from typing import TYPE_CHECKING, Any, Callable, Dict, List, Union
@@ -26,6 +25,7 @@ from pyccolo.tracer import (
     register_raw_handler,
     skip_when_tracing_disabled,
 )
+from pyccolo.tracer import parse_function_source
 from pyccolo.utils import multi_context, resolve_tracer
 
 
@@ -175,7 +175,7 @@ def instrumented(tracers: List[BaseTracer]) -> Callable[[Callable[..., Any]], Ca
     def decorator(f: Callable[..., Any]) -> Callable[..., Any]:
         f_defined_file = f.__code__.co_filename
         with multi_context([tracer.tracing_disabled() for tracer in tracers]):
-            code = ast.parse(textwrap.dedent(inspect.getsource(f)))
+            code = parse_function_source(f)
             code.body[0] = tracers[-1].make_ast_rewriter(path=f.__code__.co_filename).visit(code.body[0])
             compiled: types.CodeType = compile(code, f.__code__.co_filename, "exec")
             for const in compiled.co_consts:
